@@ -55,7 +55,7 @@ def cases(tier, seed):
             sp["crop"]["kw"]["SwitchGDD"] = 1
         if common.crop_catalogue()[sp["crop"]["name"]]["CalendarType"] == 2 and sp["weather"]["kind"] == "synth" and i % 2 == 0:
             # warm and cool years: a later season may run up against the latest harvest date
-            sp["weather"].setdefault("params", {})["interannual"] = float(gen.pick(rng, [2.0, 3.5]))
+            sp["weather"].setdefault("params", {})["interannual"] = float(gen.pick(rng, [3.0, 4.5, 6.0]))
         if i % 8 == 1:
             # in-season curve-number adjustment on (its fallow twin stays off)
             sp.setdefault("fm", {}).update(curve_number_adj=True, curve_number_adj_pct=float(gen.pick(rng, [-10, 10, 25])))
